@@ -6,6 +6,7 @@ import (
 	"os"
 	"sort"
 	"strings"
+	"sync"
 
 	"github.com/hashicorp/go-hclog"
 	"github.com/hashicorp/raft"
@@ -590,39 +591,68 @@ func suiteCrash(seed uint64, tier string) *Report {
 	r := NewRng(seed ^ 0xc4a5)
 	nw, depth := 14, 2
 	if tier == "thorough" {
-		nw, depth = 150, 3
+		depth = 3
 	}
 	simfs.OpenWriterDirSyncs = probeOpenWriterDirSyncs()
-	ctx := &crashCtx{dist: map[string]int{}, openWriterDirSyncs: simfs.OpenWriterDirSyncs}
-	rep.Dist["open_writer_dirsyncs"] = map[bool]int{false: 0, true: 1}[ctx.openWriterDirSyncs]
-	shapes := map[string]bool{}
+	nw, depth = nwFor(tier), depth
+	type res struct {
+		ctx     *crashCtx
+		segSize int
+		ops     []string
+	}
+	results := make([]res, nw)
+	forks := make([]*Rng, nw)
+	for k := range forks {
+		forks[k] = r.Fork()
+	}
+	sem := make(chan struct{}, 16)
+	var wg sync.WaitGroup
 	for k := 0; k < nw; k++ {
-		cr := r.Fork()
-		segSize, ops := genCrashWorkload(cr)
-		ctx.segSize = segSize
-		before := len(ctx.viols)
-		ctx.exploreCrashes(simfs.New(), &refLog{stable: map[string]string{}}, ops, cr, depth, nil, true)
+		wg.Add(1)
+		sem <- struct{}{}
+		go func(k int) {
+			defer wg.Done()
+			defer func() { <-sem }()
+			cr := forks[k]
+			segSize, ops := genCrashWorkload(cr)
+			ctx := &crashCtx{dist: map[string]int{}, openWriterDirSyncs: simfs.OpenWriterDirSyncs, segSize: segSize}
+			ctx.exploreCrashes(simfs.New(), &refLog{stable: map[string]string{}}, ops, cr, depth, nil, true)
+			results[k] = res{ctx, segSize, ops}
+		}(k)
+	}
+	wg.Wait()
+	rep.Dist["open_writer_dirsyncs"] = map[bool]int{false: 0, true: 1}[simfs.OpenWriterDirSyncs]
+	shapes := map[string]bool{}
+	images := 0
+	for _, rs := range results {
 		rep.Cases++
-		rep.Ops += len(ops)
+		rep.Ops += len(rs.ops)
 		var kinds []string
-		for _, o := range ops {
+		for _, o := range rs.ops {
 			kinds = append(kinds, strings.Fields(o)[0])
 		}
-		shapes[fmt.Sprint(segSize, kinds)] = true
+		shapes[fmt.Sprint(rs.segSize, kinds)] = true
 		if len(rep.Samples) < 4 {
-			rep.Samples = append(rep.Samples, map[string]any{"segment_size": segSize, "ops": clip(ops, 10)})
+			rep.Samples = append(rep.Samples, map[string]any{"segment_size": rs.segSize, "ops": clip(rs.ops, 10)})
 		}
-		if len(ctx.viols) > before && len(ctx.viols) >= 40 {
-			break
+		for k, v := range rs.ctx.dist {
+			rep.Dist[k] += v
+		}
+		images += rs.ctx.images
+		if len(rep.Violations) < 40 {
+			rep.Violations = append(rep.Violations, rs.ctx.viols...)
 		}
 	}
 	rep.NonTrivial = len(shapes)
-	for k, v := range ctx.dist {
-		rep.Dist[k] = v
-	}
-	rep.Dist["images_checked"] = ctx.images
-	rep.Violations = append(rep.Violations, ctx.viols...)
+	rep.Dist["images_checked"] = images
 	return rep
+}
+
+func nwFor(tier string) int {
+	if tier == "thorough" {
+		return 400
+	}
+	return 48
 }
 
 func init() { suites["crash"] = suiteCrash }
